@@ -62,7 +62,7 @@ def case(args):
                 for port, st, path in t["outs"]:
                     sp.files[path] = "ALREADY-THERE %s\n" % path
     ys = (rng.randint(1, 10**6), 300) if rng.random() < 0.3 else None
-    r = t3.success_case(sp, yield_seed=ys, extra_check=order_check(recs))
+    r = t3.success_case(sp, yield_seed=ys, extra_check=order_check(recs), replays=("net",))
     # completion order really was different from creation order?
     return r
 
